@@ -112,7 +112,11 @@ static void do_open(FObj* f, int file, int mode, int via_new, int fault) {
    * which is the C library's business, not the property's */
   for (int i = 0; i < NFOBJ; i++) if (&FO[i] != f && (FO[i].open || FO[i].unknown) && FO[i].file == file) return;
   if (fault) vfs_arm(fault, 1);
-  if (via_new) {
+  if (via_new == 2) {
+    /* the constructor run again on the existing object (construct): like sopen, it must close a stream that is still open */
+    CALL(ex, construct(f->obj, $S((char*)vfs_name(file)), $S((char*)MODES[mode])));
+    stat_add("file.reconstruct", 1);
+  } else if (via_new) {
     /* a brand new File object constructed with (name, mode) */
     if (f->open || f->unknown) { var volatile e2 = NULL; CALL(e2, del_raw(f->obj)); f->obj = new_raw(File); f->open = 0; f->unknown = 0; was_open = 0; }
     var old = f->obj;
@@ -402,7 +406,9 @@ static void files_execute(const Plan* p) {
     int kth = 1 + (o->fault / VFS_F_NKINDS) % 4;
     switch (o->code) {
       case F_OPEN: do_open(f, (int)(((o->a[1] % VFS_NFILES) + VFS_NFILES) % VFS_NFILES), (int)(((o->a[2] % M_NMODES) + M_NMODES) % M_NMODES), 0, (fault == VFS_F_FOPEN_FAIL || fault == VFS_F_FCLOSE_FAIL) ? fault : 0); break;
-      case F_NEWOPEN: do_open(f, (int)(((o->a[1] % VFS_NFILES) + VFS_NFILES) % VFS_NFILES), (int)(((o->a[2] % M_NMODES) + M_NMODES) % M_NMODES), 1, fault == VFS_F_FOPEN_FAIL ? fault : 0); break;
+      case F_NEWOPEN: { int inplace = (int)((o->a[2] / M_NMODES) % 2 == 1);
+        do_open(f, (int)(((o->a[1] % VFS_NFILES) + VFS_NFILES) % VFS_NFILES), (int)(((o->a[2] % M_NMODES) + M_NMODES) % M_NMODES), inplace ? 2 : 1,
+                inplace ? ((fault == VFS_F_FOPEN_FAIL || fault == VFS_F_FCLOSE_FAIL) ? fault : 0) : (fault == VFS_F_FOPEN_FAIL ? fault : 0)); break; }
       case F_CLOSE: do_close(f, (fault == VFS_F_FCLOSE_FAIL || fault == VFS_F_WRITE_EIO || fault == VFS_F_WRITE_ENOSPC) ? fault : 0); break;
       case F_WRITE: do_write(f, o->a[1], o->a[2], (fault == VFS_F_WRITE_EIO || fault == VFS_F_WRITE_ENOSPC) ? fault : 0, kth); break;
       case F_READ: do_read(f, o->a[1], (fault == VFS_F_READ_ERR || fault == VFS_F_SHORT_READ) ? fault : 0, kth); break;
@@ -459,7 +465,7 @@ static void files_generate_random(Plan* p, Rng* r, int maxops) {
     if (faults && rng_chance(r, 1, 6)) { int fk = (int)rng_below(r, VFS_F_NKINDS - 1); int fw = (int)rng_below(r, 4); fault = 1 + fk + VFS_F_NKINDS * fw; }
     if (!faults && rng_chance(r, 1, 5)) fault = VFS_F_SHORT_READ;
     if (d < 16) { int64_t o3 = rng_below(r, M_NMODES); uint32_t ob = rng_chance(r, 3, 4) ? 2 : VFS_NFILES; int64_t o2 = rng_below(r, ob); plan_add(p, F_OPEN, 0, fault, fo, o2, o3, 0, 0, 0); }
-    else if (d < 19) { int64_t n3 = rng_below(r, M_NMODES), n2 = rng_below(r, 2); plan_add(p, F_NEWOPEN, 0, fault, fo, n2, n3, 0, 0, 0); }
+    else if (d < 19) { int64_t n3 = rng_below(r, 2 * M_NMODES), n2 = rng_below(r, 2); plan_add(p, F_NEWOPEN, 0, fault, fo, n2, n3, 0, 0, 0); }
     else if (d < 29) plan_add(p, F_CLOSE, 0, fault, fo, 0, 0, 0, 0, 0);
     else if (d < 47) plan_add(p, F_WRITE, 0, fault, fo, a, len_, 0, 0, 0);
     else if (d < 63) plan_add(p, F_READ, 0, fault, fo, len_, 0, 0, 0, 0);
